@@ -125,6 +125,8 @@ def abstract_events(evs, mode):
             fault = "fmt-error"        # inline-snapshot catches everything that black raises
         elif fault in ("fmt-raise", "fmt-nonutf8"):
             fault = "exception"
+        elif fault == "fmt-empty":
+            fault = "fmt-garbage"      # the formatter printed something that is not the program
         ev = {"ev": e["ev"], "file": "", "fault": fault}
         if e["ev"] in ("open-r", "open-w"):
             ev["file"] = inv.get(e["what"][0], "")
@@ -230,7 +232,7 @@ def plans_for(evs, mode, thorough):
         if e["ev"] == "open-w":
             kinds += ["write-exception", "write-crash"]
         if e["ev"] == "fmt":
-            kinds += ["fmt-exit1", "fmt-garbage", "fmt-raise"] + (["fmt-nonutf8"] if mode == "cmd" else [])
+            kinds += ["fmt-exit1", "fmt-garbage", "fmt-empty", "fmt-raise"] + (["fmt-nonutf8"] if mode == "cmd" else [])
         if e["ev"] == "open-r" and not thorough and e["n"] % 3:
             continue        # quick: every third read boundary
         for k in kinds:
